@@ -16,6 +16,9 @@
 //!
 //! The cache's contents will grow past its stated capacity, but
 //! should rarely reach more than twice that capacity.
+#[cfg(kismet_verif)]
+#[allow(unused_imports)]
+use kismet_vfs::{filetime, libc, rand, std, tempfile};
 use std::borrow::Cow;
 use std::fs::File;
 use std::io::Result;
